@@ -132,6 +132,17 @@ fn main() {
         ctx.emit("corpus", 0.95, &p, 1, 1);
     }
 
+    // the edges of the domain (never met by the grids below): phi_f outside (0, 1], non-finite phi_f, total stake 0,
+    // stake above the total. The model has a branch for each (`f64ToRat = none`, `total = 0`, negative `x`).
+    for phi in [0.0f64, -0.0, -0.5, -1e300, 1.5, 2.0, f64::NAN, f64::INFINITY, f64::NEG_INFINITY, 1.0 + f64::EPSILON, 1.0 + 2.0 * f64::EPSILON, 1e-320, 0.2] {
+        for ev in [BigUint::zero(), BigUint::one(), BigUint::one() << 510usize, max512.clone()] {
+            // (a stake far above the total makes one call run for minutes — DESIGN 0.2b —: only a mild excess here)
+            for (stake, total) in [(0u64, 0u64), (1, 0), (0, 1), (1, 1), (5, 3), (3, 10)] {
+                ctx.emit("domain-edge", phi, &ev, stake, total);
+            }
+        }
+    }
+
     let reps = if args.thorough() { 40 } else { 1 };
     let jmax = if args.thorough() { 200 } else { 130 };
     let jstep = if args.thorough() { 1 } else { 13 };
